@@ -68,8 +68,13 @@ pub fn swap_quote_by_input_token(
         (swap_result.token_b, swap_result.token_a)
     };
 
-    let token_in =
-        try_reverse_apply_transfer_fee(token_in_after_fees, transfer_fee_in.unwrap_or_default())?;
+    // When the swap consumes the whole (fee-excluded) input the program takes exactly the
+    // specified amount; only a partial fill is converted back to a fee-included amount.
+    let token_in = if token_in_after_fees == token_in_after_fee {
+        token_in
+    } else {
+        try_reverse_apply_transfer_fee(token_in_after_fees, transfer_fee_in.unwrap_or_default())?
+    };
 
     let token_est_out = try_apply_transfer_fee(
         token_est_out_before_fee,
